@@ -50,7 +50,7 @@ inductive Goal where
 /-- problem name prefix -> goal within the stated budget -/
 def goals : List (String × Goal) :=
   [("sphere2@", .factor 10000), ("sphere5@", .factor 1000), ("sphere10@", .factor 20),
-   ("bound", .optimum), ("grid", .optimum), ("onemax", .optimum), ("mapsize", .optimum), ("mapshrink", .optimum), ("far", .factor 1000), ("deep", .factor 1000000000000), ("choice", .optimum)]
+   ("bound", .optimum), ("grid", .optimum), ("onemax", .optimum), ("mapsize", .optimum), ("mapshrink", .optimum), ("far", .factor 1000), ("deep", .factor 1000000000000), ("warm", .factor 1000000), ("choice", .optimum)]
 
 def goalOf (name : String) : Option Goal :=
   (goals.find? (fun g => g.1.isPrefixOf name)).map (·.2)
